@@ -112,6 +112,15 @@ impl<'r> Pure<'r> {
                 let (c, a, b) = (self.boolean(d), self.int(d), self.int(d));
                 Expr::Ternary(Box::new(c), Box::new(a), Box::new(b))
             }
+            11 => {
+                // casts on constants (docs/language.md: numeric casts amongst int/uint/double, bool to integer)
+                let v = match self.rng.below(3) {
+                    0 => self.float(d.min(1)),
+                    1 => self.boolean(d.min(1)),
+                    _ => self.int(d),
+                };
+                Expr::As(Box::new(v), vec![self.rng.pick(&["int", "int", "uint"]).to_string()])
+            }
             _ => self.int_leaf(),
         }
     }
@@ -136,6 +145,10 @@ impl<'r> Pure<'r> {
             4 => {
                 let a = self.float(d);
                 un(*self.rng.pick(&["minus", "plus"]), a)
+            }
+            5 if self.rng.chance(1, 2) => {
+                let a = self.int(d.min(1));
+                Expr::As(Box::new(a), vec!["double".to_string()])
             }
             _ => self.float_leaf(),
         }
